@@ -176,11 +176,17 @@ class BaseSession(SessionInterface, Generic[MessageT]):
             raise MailboxReadOnly(name)
         dest_selected = self._pick_selected(selected, mbx)
         uids: list[int] = []
-        for append_msg in messages:
-            msg = await mbx.append(append_msg, recent=not dest_selected)
-            if dest_selected:
-                dest_selected.session_flags.add_recent(msg.uid)
-            uids.append(msg.uid)
+        try:
+            for append_msg in messages:
+                msg = await mbx.append(append_msg, recent=not dest_selected)
+                if dest_selected:
+                    dest_selected.session_flags.add_recent(msg.uid)
+                uids.append(msg.uid)
+        except BaseException:
+            # all-or-nothing: take back the messages already stored
+            if uids:
+                await shield(mbx.delete(uids))
+            raise
         return (AppendUid(mbx.uid_validity, uids),
                 await self._load_updates(selected, mbx))
 
